@@ -304,6 +304,7 @@ func (s *v6Square) rangeAlternates(f, t int) [][2]int {
 type v6MemStore struct {
 	eds  map[uint64]*rsmt2d.ExtendedDataSquare
 	fail map[uint64]bool
+	all  *rsmt2d.ExtendedDataSquare // if set: the square held at every height
 }
 
 func (m *v6MemStore) GetByHeight(_ context.Context, h uint64) (eds.AccessorStreamer, error) {
@@ -311,6 +312,9 @@ func (m *v6MemStore) GetByHeight(_ context.Context, h uint64) (eds.AccessorStrea
 		return nil, errors.New("verif: disk failure")
 	}
 	e, ok := m.eds[h]
+	if !ok && m.all != nil {
+		e, ok = m.all, true
+	}
 	if !ok {
 		return nil, store.ErrNotFound
 	}
